@@ -690,6 +690,24 @@ theorem schedule_run (P : List Instr) (sc : List Sched) : ∀ (n : Nat) (rem : L
           · exact ih _ g
         · exact .refl g
 
+theorem scheduleH_run (hold : List Nat) (P : List Instr) (sc : List Sched) :
+    ∀ (n : Nat) (rem : List Nat) (g : G), GRun P g (scheduleH hold P sc n rem g) := by
+  intro n
+  induction n with
+  | zero => intro rem g; exact .refl g
+  | succ n ih =>
+    intro rem g
+    simp only [scheduleH]
+    split
+    · exact grun_trans (loopPhase_run P sc g) (ih rem _)
+    · split
+      · exact grun_trans (runChild_run P _ _ g) (ih rem _)
+      · split
+        · split
+          · exact .refl g
+          · exact ih _ g
+        · exact .refl g
+
 /-- `gsucc` lists every successor -/
 theorem gstep_mem_gsucc {P : List Instr} {g g' : G} (h : GStep P g g') : g' ∈ gsucc P g := by
   simp only [gsucc, List.mem_append, List.mem_filterMap, List.mem_range]
@@ -810,6 +828,79 @@ theorem other_tasks_run (cs : List (Callee × Bool)) (g : G) (hrun : GRun prog (
       refine Or.inr (Or.inr ⟨hj, hc, { g with invs := g.invs.set i { l with st := { l.st with cpc := .exited, childTx := false } } }, ?_⟩)
       simp [gChild, hi, childStep, hc]
 
+/-- the clause "while it is pending the event loop keeps running other tasks" at full strength: in no reachable state does a
+    coroutine sit in a synchronously blocking call (a single-threaded event loop runs nothing else meanwhile) -/
+def other_tasks_run_full : Prop :=
+  ∀ (cs : List (Callee × Bool)) (g : G), GRun prog (G.init cs) g → frozen prog g = false
+
+/-- explicit guard: no child is in the phase between the end of its `send` and its exit — "the child exits promptly after sending" -/
+def promptExit (g : G) : Bool := g.invs.all (fun l => l.st.cpc != .sent)
+
+/-- **other tasks run — proved part**: as long as every child that has sent its message exits promptly, no coroutine of any
+    reachable state sits in a synchronously blocking call: every pending invocation is runnable or suspended at an `await` -/
+theorem other_tasks_run_partial (cs : List (Callee × Bool)) (g : G) (hrun : GRun prog (G.init cs) g) (hp : promptExit g = true) :
+    frozen prog g = false := by
+  cases hf : frozen prog g with
+  | false => rfl
+  | true =>
+    exfalso
+    simp only [frozen, List.any_eq_true] at hf
+    obtain ⟨l, hl, hb⟩ := hf
+    obtain ⟨i, hi⟩ := List.getElem?_of_mem hl
+    have hlr := (wf_run hrun).reach i l hi
+    have hc := (local_sync hlr hb).2
+    simp only [promptExit, List.all_eq_true] at hp
+    have := hp l hl
+    simp [hc] at this
+
+/-- the witness: two concurrent invocations of ordinary returning callees; the child of invocation 0 has sent its result and
+    lingers (its exit step is withheld), everything else has moved as far as it can -/
+def lingerCs : List (Callee × Bool) := [(.ret 0, false), (.ret 1, false)]
+def lingerSc : List Sched := [⟨1, none⟩, ⟨3, none⟩]
+def blockG : G := scheduleH [0] prog lingerSc 200 [1, 3] (G.init lingerCs)
+
+/-- **negation witness for the full clause — `process.join()` blocks the event loop while the child lingers.**  A reachable
+    state in which invocation 0 sits inside the synchronous `join` (its child has sent and not exited), invocation 1 is
+    pending with its result already in the pipe and its reader callback enabled — the loop has work to do — and yet an
+    iteration of the event loop changes nothing: everything waits for the child of invocation 0 to exit. -/
+theorem join_blocks_other_tasks :
+    GRun prog (G.init lingerCs) blockG ∧
+    (∃ l, blockG.invs[0]? = some l ∧ syncBlocked prog l.st = true ∧ isJoin prog l.st = true ∧ l.st.cpc = .sent) ∧
+    (∃ l, blockG.invs[1]? = some l ∧ l.st.final = false ∧ l.st.readable = true) ∧
+    (∃ k g', gCallback k blockG = some g') ∧
+    loopPhase prog lingerSc blockG = blockG ∧ frozen prog blockG = true ∧ promptExit blockG = false := by
+  refine ⟨scheduleH_run _ _ _ _ _ _, ?_, ?_, ?_, ?_, ?_, ?_⟩
+  · have h : (match blockG.invs[0]? with
+        | some l => syncBlocked prog l.st && isJoin prog l.st && l.st.cpc == .sent | none => false) = true := by decide +kernel
+    cases h0 : blockG.invs[0]? with
+    | none => simp [h0] at h
+    | some l =>
+      simp only [h0, Bool.and_eq_true, beq_iff_eq] at h
+      exact ⟨l, rfl, h.1.1, h.1.2, h.2⟩
+  · have h : (match blockG.invs[1]? with | some l => !l.st.final && l.st.readable | none => false) = true := by decide +kernel
+    cases h1 : blockG.invs[1]? with
+    | none => simp [h1] at h
+    | some l =>
+      simp only [h1, Bool.and_eq_true, Bool.not_eq_true'] at h
+      exact ⟨l, rfl, h.1, h.2⟩
+  · have h : ((List.range blockG.tbl.length).filterMap (fun k => gCallback k blockG)).isEmpty = false := by decide +kernel
+    cases hk : (List.range blockG.tbl.length).filterMap (fun k => gCallback k blockG) with
+    | nil => simp [hk] at h
+    | cons g' rest =>
+      have hm : g' ∈ (List.range blockG.tbl.length).filterMap (fun k => gCallback k blockG) := by simp [hk]
+      obtain ⟨k, _, hk'⟩ := List.mem_filterMap.1 hm
+      exact ⟨k, g', hk'⟩
+  · decide +kernel
+  · decide +kernel
+  · decide +kernel
+
+theorem other_tasks_run_full_false : ¬ other_tasks_run_full := by
+  intro h
+  have h1 := h lingerCs blockG join_blocks_other_tasks.1
+  have h2 := join_blocks_other_tasks.2.2.2.2.2.1
+  rw [h1] at h2
+  cases h2
+
 /-- **always terminates, releases everything** — for every number of concurrent invocations, every assignment of callee
     behaviours and child deaths, every interleaving:
     1. no run can be extended forever (every step decreases the rank sum),
@@ -918,6 +1009,8 @@ example : GRun prog (G.init demoCs) demoG := schedule_run _ _ _ _ _
 example : demoG.invs.map (fun l => l.st.out) =
     [some .retOk, some .raisedCallee, some .raisedCPE, some .retOk, some .raisedCPE, some .raisedErr] := by decide +kernel
 example : demoG.tbl = [] ∧ demoG.invs.all (fun l => l.st.released && l.rx.isNone && l.tx.isNone) = true := by decide +kernel
+/-- the guard of `other_tasks_run_partial` is met by these states -/
+example : promptExit demoG = true := by decide +kernel
 /-- a state in the middle of a run: three invocations pending, three selector entries at three different fd numbers -/
 def midG : G := loopPhase prog [⟨1, none⟩, ⟨1, none⟩, ⟨1, none⟩] (G.init [(.ret 0, false), (.ret 1, false), (.unpicklable, false)])
 example : GRun prog (G.init [(.ret 0, false), (.ret 1, false), (.unpicklable, false)]) midG := loopPhase_run _ _ _
